@@ -260,12 +260,47 @@ func likePattern(t *rapid.T, c *Col, label string) string {
 	}
 	r := []rune(base)
 	var sb strings.Builder
-	mode := rapid.SampledFrom([]int{0, 1, 2, 3, 4, 5, 6, 7, 7, 7, 8, 8}).Draw(t, label+".mode")
+	mode := rapid.SampledFrom([]int{0, 1, 2, 3, 4, 5, 6, 7, 7, 7, 8, 8, 9, 9, 10, 10, 10}).Draw(t, label+".mode")
 	switch mode {
 	case 7: // prefix%suffix taken from one value; the two parts may overlap in it (then only longer values match)
 		i := rapid.IntRange(0, len(r)).Draw(t, label+".i")
 		j := rapid.IntRange(0, len(r)).Draw(t, label+".j")
 		sb.WriteString(string(r[:j]) + "%" + string(r[i:]))
+	case 10: // head%mid%tail cut out of one value so that mid shares characters with the tail or with the head: the
+		// value itself does not match (it is too short to hold the three one after the other), longer values may
+		if len(r) >= 2 {
+			k := rapid.IntRange(1, len(r)).Draw(t, label+".k") // mid ends here (exclusive)
+			j := rapid.IntRange(0, k-1).Draw(t, label+".j")    // mid starts here
+			if rapid.Bool().Draw(t, label+".withtail") {
+				i := rapid.IntRange(0, k-1).Draw(t, label+".i") // tail starts before mid ends
+				h := rapid.IntRange(0, j).Draw(t, label+".h")
+				sb.WriteString(string(r[:h]) + "%" + string(r[j:k]) + "%" + string(r[i:]))
+			} else {
+				h := rapid.IntRange(j+1, len(r)).Draw(t, label+".h") // head ends after mid starts
+				i := rapid.IntRange(k, len(r)).Draw(t, label+".i")
+				sb.WriteString(string(r[:h]) + "%" + string(r[j:k]) + "%" + string(r[i:]))
+			}
+		} else {
+			sb.WriteString(base + "%" + base + "%" + base)
+		}
+	case 9: // two to four arbitrary fragments of one value with % between them (and maybe around them): the fragments
+		// may overlap in the value or come in another order, so that the value itself matches only if the
+		// fragments can be placed one after the other without sharing characters
+		n := rapid.IntRange(2, 4).Draw(t, label+".nseg")
+		if rapid.Bool().Draw(t, label+".lead") {
+			sb.WriteString("%")
+		}
+		for k := 0; k < n; k++ {
+			if k > 0 {
+				sb.WriteString("%")
+			}
+			i := rapid.IntRange(0, len(r)).Draw(t, fmt.Sprintf("%s.f%di", label, k))
+			j := rapid.IntRange(i, minInt(len(r), i+2)).Draw(t, fmt.Sprintf("%s.f%dj", label, k))
+			sb.WriteString(string(r[i:j]))
+		}
+		if rapid.Bool().Draw(t, label+".trail") {
+			sb.WriteString("%")
+		}
 	case 8: // several wildcards between fragments of the value
 		for i, ch := range r {
 			sb.WriteRune(ch)
